@@ -120,10 +120,12 @@ PROPS = {
         "monitor": monitors.c08_acknowledged,
     },
     "C09": {
-        "level_text": "callable_iff: after every history of registrations and closes the registry lets the pool call host h on connection c exactly when h's most recent registration was on c and c was not closed since; close_old_keeps_new, closed_not_callable, requests_use_current_registration, numRemotes_eq. Compared with the real registry (connect over distinct connection objects, CloseRemote, NumRemotes, which connection receives vipnode_whitelist).",
+        "level_text": "callable_iff: after every history of registrations and closes the registry lets the pool call host h on connection c exactly when h's most recent registration was on c and c was not closed since; close_old_keeps_new, closed_not_callable, requests_use_current_registration, numRemotes_eq. Compared with the real registry (connect over distinct connection objects, CloseRemote, NumRemotes, which connection receives vipnode_whitelist), and with the built pool binary: hosts register over real WebSocket connections that end as dropped sockets, close frames of every class or protocol errors, and a light client's peer request shows which connections the pool still calls.",
         "level_note": POOL_NOTE + " Registry steps are atomic (pool mutex); a close racing an in-flight request is covered by requests_use_current_registration for requests that start after the close.",
         "lean_modules": ["Vipnode.Props.C09"],
-        "streams": pool_streams(150, 1500, gen="pool-peers", prefix="registry"),
+        "streams": pool_streams(150, 1500, gen="pool-peers", prefix="registry") + [
+            {"name": "poolbin-ws", "component": "poolbin", "cases": {"quick": 16, "thorough": 200}},
+        ],
         "monitor": monitors.c09_registry,
     },
     "C10": {
@@ -134,6 +136,7 @@ PROPS = {
             {"name": "conc-memory", "component": "conc", "opts": {"driver": "memory"}, "cases": {"quick": 16, "thorough": 200}, "no_shrink": True, "race": True},
             {"name": "conc-badger", "component": "conc", "opts": {"driver": "badger"}, "cases": {"quick": 16, "thorough": 200}, "no_shrink": True, "race": True},
         ] + store_streams(150, 1500, prefix="snapshots"),
+        "monitor": monitors.c10_conc,
         "race": True,
     },
     "C11": {
